@@ -49,6 +49,7 @@ const PUBLISH_THRESHOLD: f64 = -50.0;
 
 #[derive(Clone, Default)]
 struct Snap {
+    fanout: BTreeMap<String, BTreeSet<PeerId>>,
     mesh: BTreeMap<String, BTreeSet<PeerId>>,
     score: HashMap<PeerId, f64>,
     peers: HashMap<PeerId, BTreeSet<String>>,
@@ -76,6 +77,7 @@ struct Mon {
     grafts_at_high: u64,
     ineligible_seen: u64,
     joined_left_events: u64,
+    fanout_removals_checked: u64,
     /// the FIFO of RPCs the raw peers sent no longer lines up with what the node processes: the ledger cannot be trusted
     desync: bool,
     single_closes: u64,
@@ -98,6 +100,10 @@ impl Mon {
             let m: BTreeSet<PeerId> = gsb.mesh_peers(&th).copied().collect();
             if !m.is_empty() {
                 s.mesh.insert(t.to_string(), m);
+            }
+            let f: BTreeSet<PeerId> = gsb.verif_fanout(&th).into_iter().collect();
+            if !f.is_empty() {
+                s.fanout.insert(t.to_string(), f);
             }
         }
         for (p, ts) in gsb.all_peers() {
@@ -124,6 +130,21 @@ impl Mon {
         }
         let snap = Mon::snap(gsb);
         if let Some(prev) = self.prev.take() {
+            // C35: between heartbeats (and short of a local subscribe, which turns the fanout into a mesh) a fanout
+            // peer only leaves the set by becoming ineligible itself (gone, unsubscribed, below the publish threshold)
+            if !(cause == "heartbeat" || cause.starts_with("local subscribe")) {
+                for (t, before) in &prev.fanout {
+                    let now_set = snap.fanout.get(t).cloned().unwrap_or_default();
+                    for p in before.difference(&now_set) {
+                        self.fanout_removals_checked += 1;
+                        let eligible = snap.peers.get(p).map(|ts| ts.contains(t)).unwrap_or(false) && snap.score.get(p).map(|s| *s >= PUBLISH_THRESHOLD).unwrap_or(true) && !self.explicit.contains(p);
+                        if eligible {
+                            let who = self.name(p);
+                            self.viol.push(("C35", "fanout-peer-dropped-between-heartbeats".into(), format!("{who} left the fanout of {t} although it is still connected, subscribed and not below the publish threshold ({cause})")));
+                        }
+                    }
+                }
+            }
             for (t, members) in &snap.mesh {
                 let before = prev.mesh.get(t).cloned().unwrap_or_default();
                 for p in members.difference(&before) {
